@@ -159,7 +159,7 @@ pub fn uadv(thorough: bool) -> Vec<(String, Pats)> {
     // fan-out of one state: around the 127 sparse limit, and all 256 bytes
     // (a contiguous-NFA sparse state stores its transition count in one byte
     // next to the sentinels 0xFE / 0xFF: 253..=256 matter as well)
-    let fans: Vec<usize> = if thorough { (1..=256).collect() } else { vec![126, 127, 128, 130, 253, 254, 255, 256] };
+    let fans: Vec<usize> = if thorough { (1..=256).collect() } else { vec![3, 4, 5, 8, 9, 126, 127, 128, 130, 253, 254, 255, 256] };
     for n in fans {
         let pats: Pats = (0..n).map(|i| vec![b'x', i as u8]).collect();
         v.push((format!("fan{}", n), pats));
